@@ -18,6 +18,11 @@
 //!            around them): cw-multi-test 0.16 refuses responses with an empty attribute value, which
 //!            hides what `instantiate` does with an empty bonding-asset list
 //! coll_inst                          coll_upd take=<R|->
+//! mig k=<p|t|v|d|l|c> i=N from=x.y.z  the contract's `migrate` entry point after its stored cw2 version has been
+//!            set to `from` (raw storage write in the preparatory step; the current storage layout is kept): sent
+//!            by the wasm admin, for factory-made pools / vaults through the factory's Migrate* message. The
+//!            outcome (refused: version not lower, or an older-layout migration that cannot parse the current
+//!            layout; accepted otherwise) is printed as `done` either way — what is judged is the stored Config
 //! advance N
 //! ```
 //! Observation = outcome + canonical dump of every stored Config (`p0=… t0=… v0=… d=… l=… c=…`).
@@ -180,7 +185,8 @@ impl W {
                 terraswap_pair::contract::instantiate,
                 terraswap_pair::contract::query,
             )
-            .with_reply(terraswap_pair::contract::reply),
+            .with_reply(terraswap_pair::contract::reply)
+            .with_migrate(terraswap_pair::contract::migrate),
         ));
         let trio = app.store_code(Box::new(
             ContractWrapper::new(
@@ -188,7 +194,8 @@ impl W {
                 stableswap_3pool::contract::instantiate,
                 stableswap_3pool::contract::query,
             )
-            .with_reply(stableswap_3pool::contract::reply),
+            .with_reply(stableswap_3pool::contract::reply)
+            .with_migrate(stableswap_3pool::contract::migrate),
         ));
         let pfac_id = app.store_code(Box::new(
             ContractWrapper::new(
@@ -200,7 +207,8 @@ impl W {
         ));
         let vault = app.store_code(Box::new(
             ContractWrapper::new(::vault::contract::execute, ::vault::contract::instantiate, ::vault::contract::query)
-                .with_reply(::vault::reply::reply),
+                .with_reply(::vault::reply::reply)
+                .with_migrate(::vault::contract::migrate),
         ));
         let vfac_id = app.store_code(Box::new(
             ContractWrapper::new(
@@ -216,20 +224,21 @@ impl W {
                 fee_distributor::contract::instantiate,
                 fee_distributor::contract::query,
             )
-            .with_reply(fee_distributor::contract::reply),
+            .with_reply(fee_distributor::contract::reply)
+            .with_migrate(fee_distributor::contract::migrate),
         ));
-        let lair = app.store_code(Box::new(ContractWrapper::new(
-            whale_lair::contract::execute,
-            whale_lair::contract::instantiate,
-            whale_lair::contract::query,
-        )));
+        let lair = app.store_code(Box::new(
+            ContractWrapper::new(whale_lair::contract::execute, whale_lair::contract::instantiate, whale_lair::contract::query)
+                .with_migrate(whale_lair::contract::migrate),
+        ));
         let coll = app.store_code(Box::new(
             ContractWrapper::new(
                 fee_collector::contract::execute,
                 fee_collector::contract::instantiate,
                 fee_collector::contract::query,
             )
-            .with_reply(fee_collector::contract::reply),
+            .with_reply(fee_collector::contract::reply)
+            .with_migrate(fee_collector::contract::migrate),
         ));
         let pfac = app
             .instantiate_contract(
@@ -306,6 +315,46 @@ impl W {
         }
     }
 
+    /// writes one item of a contract's raw storage from outside any contract (cw-multi-test keeps a contract's
+    /// storage under the length-prefixed namespaces `wasm` / `contract_data/<addr>`); verified by reading it back
+    fn raw_set(&mut self, addr: &Addr, key: &[u8], value: &[u8]) -> bool {
+        let mut full = vec![];
+        for ns in [b"wasm".as_slice(), format!("contract_data/{addr}").as_bytes()] {
+            full.extend_from_slice(&(ns.len() as u16).to_be_bytes());
+            full.extend_from_slice(ns);
+        }
+        full.extend_from_slice(key);
+        self.app.init_modules(|_, _, storage| storage.set(&full, value));
+        self.app.dump_wasm_raw(addr).into_iter().any(|(k, v)| k.as_slice() == key && v.as_slice() == value)
+    }
+    /// "deployed by release `from`": the stored cw2 version becomes `from` (name kept)
+    fn set_stored_version(&mut self, addr: &Addr, from: &str) -> bool {
+        let raw = match self.app.dump_wasm_raw(addr).into_iter().find(|(k, _)| k.as_slice() == b"contract_info") {
+            Some((_, v)) => v,
+            None => return false,
+        };
+        let v: serde_json::Value = match serde_json::from_slice(&raw) {
+            Ok(v) => v,
+            Err(_) => return false,
+        };
+        let name = v.get("contract").and_then(|x| x.as_str()).unwrap_or("").to_string();
+        let info = serde_json::json!({ "contract": name, "version": from });
+        self.raw_set(addr, b"contract_info", &serde_json::to_vec(&info).unwrap())
+    }
+    /// the contract a `mig` line names, and whether a factory made it
+    fn mig_target(&self, ws: &[&str]) -> Option<(Addr, bool)> {
+        let i: usize = kv(ws, "i").and_then(|x| x.parse().ok()).unwrap_or(0);
+        match kv(ws, "k")? {
+            "p" => self.pairs.get(i).map(|(a, f)| (a.clone(), *f)),
+            "t" => self.trios.get(i).map(|(a, f)| (a.clone(), *f)),
+            "v" => self.vaults.get(i).map(|(a, f, _, _)| (a.clone(), *f)),
+            "d" => self.dist.clone().map(|a| (a, false)),
+            "l" => self.lair.clone().map(|a| (a, false)),
+            "c" => self.coll.clone().map(|a| (a, false)),
+            _ => None,
+        }
+    }
+
     fn fresh_token(&mut self) -> Addr {
         self.ctr += 1;
         let sym = format!("T{}", letters(self.ctr, 4));
@@ -340,6 +389,14 @@ impl W {
                 if let Some(c) = kv(ws, "asset").and_then(Class::parse) {
                     let a = self.asset_of(c);
                     self.prep_asset = Some(a);
+                }
+            }
+            "mig" => {
+                if let (Some((addr, _)), Some(from)) = (self.mig_target(ws), kv(ws, "from")) {
+                    let from = from.to_string();
+                    self.set_stored_version(&addr, &from);
+                } else if let (Some("l"), Some(from), Some(deps)) = (kv(ws, "k"), kv(ws, "from"), self.lair_entry.as_mut()) {
+                    let _ = cw2::set_contract_version(&mut deps.storage, "white_whale-whale_lair", from);
                 }
             }
             _ => {}
@@ -645,7 +702,7 @@ impl Config {
                         },
                         &[],
                         "pair",
-                        None,
+                        Some("admin".to_string()),
                     );
                     if let Ok(a) = &r {
                         w.pairs.push((a.clone(), false));
@@ -725,7 +782,7 @@ impl Config {
                         },
                         &[],
                         "trio",
-                        None,
+                        Some("admin".to_string()),
                     );
                     if let Ok(a) = &r {
                         w.trios.push((a.clone(), false));
@@ -821,7 +878,7 @@ impl Config {
                         },
                         &[],
                         "vault",
-                        None,
+                        Some("admin".to_string()),
                     );
                     if let Ok(a) = &r {
                         w.vaults.push((a.clone(), false, class, denom));
@@ -869,7 +926,7 @@ impl Config {
                     },
                     &[],
                     "dist",
-                    None,
+                    Some("admin".to_string()),
                 );
                 if let Ok(a) = &r {
                     w.dist = Some(a.clone());
@@ -912,7 +969,7 @@ impl Config {
                 let msg = wl::InstantiateMsg { unbonding_period: Uint64::new(1_000_000), growth_rate: Decimal::raw(r), bonding_assets: assets };
                 match kv(ws, "via") {
                     None | Some("chain") => {
-                        let res = w.app.instantiate_contract(w.ids.lair, admin, &msg, &[], "lair", None);
+                        let res = w.app.instantiate_contract(w.ids.lair, admin, &msg, &[], "lair", Some("admin".to_string()));
                         if let Ok(a) = &res {
                             w.lair = Some(a.clone());
                             w.lair_entry = None;
@@ -959,11 +1016,48 @@ impl Config {
                 ex(w.app.execute_contract(admin, addr, &msg, &[]))
             }
             "coll_inst" => {
-                let r = w.app.instantiate_contract(w.ids.coll, admin, &fc::InstantiateMsg {}, &[], "coll", None);
+                let r = w.app.instantiate_contract(w.ids.coll, admin, &fc::InstantiateMsg {}, &[], "coll", Some("admin".to_string()));
                 if let Ok(a) = &r {
                     w.coll = Some(a.clone());
                 }
                 ex(r)
+            }
+            "mig" => {
+                let k = kv(ws, "k")?;
+                kv(ws, "from")?;
+                if k == "l" && w.lair.is_none() {
+                    // the lair driven at entry-point level
+                    let deps = match w.lair_entry.as_mut() {
+                        Some(d) => d,
+                        None => return Some(Err("no lair".into())),
+                    };
+                    let backup = copy_storage(&deps.storage);
+                    return Some(match whale_lair::contract::migrate(deps.as_mut(), mock_env(), wl::MigrateMsg {}) {
+                        Ok(_) => Ok(()),
+                        Err(e) => {
+                            deps.storage = backup;
+                            Err(e.to_string())
+                        }
+                    });
+                }
+                let (addr, via) = match w.mig_target(ws) {
+                    Some(x) => x,
+                    None => return Some(Err("no such contract".into())),
+                };
+                let code = w.app.contract_data(&addr).ok()?.code_id as u64;
+                if via {
+                    match k {
+                        "p" => ex(w.app.execute_contract(admin, w.pfac.clone(), &pf::ExecuteMsg::MigratePair { contract: addr.to_string(), code_id: Some(code) }, &[])),
+                        "t" => ex(w.app.execute_contract(admin, w.pfac.clone(), &pf::ExecuteMsg::MigrateTrio { contract: addr.to_string(), code_id: Some(code) }, &[])),
+                        _ => {
+                            let fac = if w.lenient_vaults.contains(&addr) { w.vfac2.clone() } else { w.vfac.clone() };
+                            ex(w.app.execute_contract(admin, fac, &vf::ExecuteMsg::MigrateVaults { vault_addr: Some(addr.to_string()), vault_code_id: code }, &[]))
+                        }
+                    }
+                } else {
+                    let msg = cosmwasm_std::to_json_binary(&cosmwasm_std::Empty {}).ok()?;
+                    ex(w.app.execute(admin.clone(), cosmwasm_std::WasmMsg::Migrate { contract_addr: addr.to_string(), new_code_id: code, msg }.into()))
+                }
             }
             "coll_upd" => {
                 let t: Option<u128> = opt_u(kv(ws, "take")?)?;
@@ -1098,6 +1192,13 @@ impl Engine for Config {
             }
         };
         let dump = w.dump(mon);
+        if ws[0] == "mig" {
+            // ---- C18 across a migration: whatever the handler did with the stored version, every stored
+            // configuration is what it was (and ConfigOk has just been evaluated on it)
+            mon.stat(&format!("mig_{}_{}_from_{}", kv(&ws, "k").unwrap_or("?"), out, kv(&ws, "from").unwrap_or("?")));
+            mon.check("C18", "migrate_keeps_config", dump == before_dump, || format!("`{line}` ({out}): configs {before_dump}  ->  {dump}"));
+            return format!("done {dump}");
+        }
         if out != "ok" {
             let after_snap = w.snapshot();
             mon.check("C18", "rejected_config_unchanged", dump == before_dump, || {
@@ -1148,7 +1249,7 @@ impl Engine for Config {
         let opt_fees = |rng: &mut Rng| if rng.chance(1, 6) { "-".to_string() } else { Self::fees_str(Self::fees(rng)) };
         let h = w.app.block_info().height;
         for _ in 0..20 {
-            let line = match rng.below(17) {
+            let line = match rng.below(19) {
                 0 => {
                     let ty = if rng.chance(1, 3) { "cp".to_string() } else { format!("stable:{}", Self::amp(rng)) };
                     let f = if rng.chance(1, 2) { rng.valid_fees() } else { Self::fees(rng) };
@@ -1273,6 +1374,35 @@ impl Engine for Config {
                     }
                 }
                 16 => format!("advance {}", *rng.pick(&[1u64, 10, 5_000, 10_000, 25_000])),
+                17 | 18 => {
+                    // a migration of one of the deployed contracts, "from" releases on both sides of every
+                    // version threshold the handlers test, the current one and a later one (refused)
+                    let mut ks: Vec<(&str, usize)> = vec![];
+                    for i in 0..w.pairs.len() {
+                        ks.push(("p", i));
+                    }
+                    for i in 0..w.trios.len() {
+                        ks.push(("t", i));
+                    }
+                    for i in 0..w.vaults.len() {
+                        ks.push(("v", i));
+                    }
+                    if w.dist.is_some() {
+                        ks.push(("d", 0));
+                    }
+                    if w.lair.is_some() || w.lair_entry.is_some() {
+                        ks.push(("l", 0));
+                    }
+                    if w.coll.is_some() {
+                        ks.push(("c", 0));
+                    }
+                    if ks.is_empty() {
+                        continue;
+                    }
+                    let (k, i) = *rng.pick(&ks);
+                    let from = *rng.pick(&["0.8.0", "0.9.0", "0.9.1", "1.0.4", "1.0.5", "1.1.0", "1.1.3", "1.1.4", "1.2.0", "1.2.1", "1.3.0", "1.0.0", "99.0.0"]);
+                    format!("mig k={k} i={i} from={from}")
+                }
                 _ => continue,
             };
             return Some(line);
